@@ -207,8 +207,7 @@ theorem withNewCas_stateAll {P : Row → Prop} {fn : TxnFn} (hfn : fn.Preserves 
     · exact StateAll.of_colls_eq rfl hs
     · rename_i docs' nid ev out hfn'
       have hd' : DocsAll P docs' := hfn _ _ _ _ _ _ _ _ (hs.coll c x hx) hfn'
-      have h2 : StateAll P (({ s with hlc := hlcNow s.hlc s.phys, lastCas := hlcNow s.hlc s.phys, nextRowId := nid } : State).setColl c
-          { x with docs := docs', lastCas := hlcNow s.hlc s.phys }) :=
+      have h2 : StateAll P (commit s c x (hlcNow s.hlc s.phys) nid docs') :=
         StateAll.setColl (StateAll.of_colls_eq rfl hs) c _ hd'
       split
       · exact StateAll.of_colls_eq rfl h2
